@@ -5,11 +5,16 @@ package proxy
 import (
 	"context"
 	"fmt"
+	"io"
 	"net"
 	"slices"
 	"strconv"
 
+	"golang.org/x/time/rate"
+
+	"github.com/fatedier/frp/pkg/config/types"
 	"github.com/fatedier/frp/pkg/msg"
+	"github.com/fatedier/frp/pkg/util/limit"
 	"github.com/fatedier/frp/pkg/util/vhost"
 	"github.com/fatedier/frp/verif"
 )
@@ -342,11 +347,34 @@ func verifLoopPoolTries(err error) bool { return err == nil }
 
 // NewProxy: a proxy object or an error.
 //
+// C01 "limiter created only for the side named by bandwidthLimitMode, rate and
+// burst = configured bytes per second": the server builds a limiter exactly
+// when the limit is positive and the mode is "server", with rate = burst = the
+// configured bytes, and hands it to the proxy it builds.
+//
 //verif:contract ~/server/proxy.NewProxy
-//verif:props C10
+//verif:props C10 C01
 func verif_NewProxy(ctx context.Context, options *Options) {
+	verif.Requires(options != nil && options.Configurer != nil, "options_present")
+	b := options.Configurer.GetBaseConfig()
+	limit := b.Transport.BandwidthLimit.Bytes()
+	limited := limit > 0 && b.Transport.BandwidthLimitMode == types.BandwidthLimitModeServer
+	verif.ResetEvents()
 	pxy, err := NewProxy(ctx, options)
 	verif.Ensures(err != nil || pxy != nil, "proxy_or_error")
+	const evLim = "rate.NewLimiter"
+	verif.Ensures(verif.Called(evLim) == limited, "limiter_iff_server_side_limit_configured")
+	if limited {
+		verif.Ensures(verif.CalledWith(evLim, 1, int(limit)) && float64(verif.NthArg[rate.Limit](evLim, 0, 0)) == float64(limit), "rate_and_burst_are_the_configured_bytes")
+	}
+	if verif.Called("dyncall:server/proxy.verifSpec_proxyFactory") {
+		base := verif.NthArg[*BaseProxy]("dyncall:server/proxy.verifSpec_proxyFactory", 0, 0)
+		if limited {
+			verif.Ensures(base.limiter == verif.Ret[*rate.Limiter](evLim, 0), "proxy_gets_that_limiter")
+		} else {
+			verif.Ensures(base.limiter == nil, "no_limiter_otherwise")
+		}
+	}
 }
 
 // The per-type constructor looked up in proxyFactoryRegistry: it wraps the
@@ -525,7 +553,8 @@ func verif_handleUserTCPConnection(pxy *BaseProxy, userConn net.Conn) {
 	cfg := pxy.configurer.GetBaseConfig()
 	enc, comp := cfg.Transport.UseEncryption, cfg.Transport.UseCompression
 	token := pxy.serverCfg.Auth.Token
-	limited := pxy.limiter != nil
+	lim := pxy.limiter
+	limited := lim != nil
 	verif.ResetEvents()
 	pxy.handleUserTCPConnection(userConn)
 	verif.Ensures(verif.CalledWith("Conn).Close", 0, userConn), "user_connection_closed_on_every_path")
@@ -545,6 +574,14 @@ func verif_handleUserTCPConnection(pxy *BaseProxy, userConn net.Conn) {
 		}
 		if !limited {
 			verif.Ensures(verif.Same(verif.NthArg[any](evJoin, 0, 0), below), "top_of_the_stack_is_joined")
+			verif.Ensures(!verif.Called("limit.NewReader") && !verif.Called("limit.NewWriter"), "no_limiter_without_a_limit")
+		} else {
+			// the byte-preserving limiter reads from and writes to the top of the
+			// stack - both directions go through every layer below it
+			verif.Ensures(verif.Same(verif.NthArg[any]("limit.NewReader", 0, 0), below) && verif.Same(verif.NthArg[any]("limit.NewWriter", 0, 0), below), "limiter_on_top_of_the_stack_in_both_directions")
+			verif.Ensures(verif.CalledWith("limit.NewReader", 1, lim) && verif.CalledWith("limit.NewWriter", 1, lim), "the_proxys_shared_limiter")
+			verif.Ensures(verif.CalledWith("golib/io.WrapReadWriteCloser", 0, io.Reader(verif.Ret[*limit.Reader]("limit.NewReader", 0))) && verif.CalledWith("golib/io.WrapReadWriteCloser", 1, io.Writer(verif.Ret[*limit.Writer]("limit.NewWriter", 0))), "limited_stream_built_from_both")
+			verif.Ensures(verif.Same(verif.NthArg[any](evJoin, 0, 0), any(verif.Ret[io.ReadWriteCloser]("golib/io.WrapReadWriteCloser", 0))), "limited_stream_is_joined")
 		}
 		verif.Ensures(verif.Same(verif.NthArg[any](evJoin, 0, 1), any(userConn)), "joined_with_this_user_connection")
 		verif.Ensures(verif.CallCount(evJoin) == 1, "joined_once")
